@@ -101,9 +101,19 @@ func cmdCheck(args []string) int {
 		cfg.Agree = true
 		cfg.FullTimeout = 120 * time.Second
 	}
+	known := loadKnownFindings(vd)
+	cfg.NoRetry = func(o *Obligation) bool {
+		for _, k := range known {
+			if !k.Fixed && k.Property == def.ID {
+				if ok, _ := regexp.MatchString(k.Obligation, o.Name); ok {
+					return true
+				}
+			}
+		}
+		return false
+	}
 	res := runProp(def, cfg, *tier)
 	// classify
-	known := loadKnownFindings(vd)
 	type viol struct {
 		o      *Obligation
 		replay string
